@@ -131,3 +131,8 @@ Definition c18_load_registered_current : bool := true.
     topic's member list, which a previous watcher of the same topic (TopicSubscribe hands out
     the topic it has) left behind: the peers that were there before are never reported. *)
 Definition rewatch_fresh_current : bool := true.
+
+(** C09 (joins): a store answers the joins seen on its own topic only - base_store.go
+    pubSubChanListener calls the store's own onNewPeerJoined (true); false = a tree on which the
+    join is passed around among all the stores of the instance (Model/Joins.v). *)
+Definition c09_join_own_topic_current : bool := true.
